@@ -78,9 +78,9 @@ ui32tostrrom(char *restrict buf, size_t bsz, uint32_t d);
 extern int __ordinalp(const char *num, size_t off_suf, char **ep);
 
 /**
- * Append ordinal suffix to the most recently printed number in BUF,
- * eating away a leading 0. */
-extern size_t __ordtostr(char *buf, size_t bsz);
+ * Append ordinal suffix to the ND digit number printed in front of BUF,
+ * eating away leading 0s.  Return by how much BUF has advanced. */
+extern int __ordtostr(char *buf, size_t bsz, size_t nd);
 
 /**
  * Take a string S, (case-insensitively) compare it to an array of strings ARR
